@@ -7,6 +7,7 @@ pub mod c04;
 pub mod c05;
 pub mod c06;
 pub mod c08;
+pub mod c09;
 pub mod c10;
 pub mod c11;
 pub mod c12;
@@ -30,6 +31,7 @@ pub fn dispatch(pos: &[String], tier: Tier, seed: u64, replay: Option<String>) -
         "C05" => c05::run(tier, seed, replay),
         "C06" => c06::run(tier, seed, replay),
         "C08" => c08::run(tier, seed, replay),
+        "C09" => c09::run(tier, seed, replay),
         "worker" => crate::worker::worker_main(),
         "C10" => c10::run(tier, seed, replay),
         "C11" => c11::run(tier, seed, replay),
